@@ -7,4 +7,5 @@ CONSTANTS
 INIT Init
 NEXT Next
 VIEW View
-INVARIANTS NoRouteViaDeadLink DataSafe Heals
+INVARIANTS NoRouteViaDeadLink Heals
+PROPERTIES DataSafeA
